@@ -41,6 +41,8 @@ typedef struct {
     char *name;
     uint16_t slot;
     char *struct_type;  /* Struct type name for field resolution (NULL if not a struct) */
+    int match_union;    /* >= 0: this local is a match binding of cg->unions[match_union] ... */
+    int match_variant;  /* ... bound to this variant (field reads resolve against it) */
 } Local;
 
 typedef struct {
@@ -251,6 +253,8 @@ static uint16_t local_add(CG *cg, const char *name, int line) {
     cg->locals[slot].name = (char *)name;
     cg->locals[slot].slot = slot;
     cg->locals[slot].struct_type = NULL;
+    cg->locals[slot].match_union = -1;
+    cg->locals[slot].match_variant = -1;
     cg->local_count++;
     return slot;
 }
@@ -1871,6 +1875,31 @@ static void compile_expr(CG *cg, ASTNode *node) {
             }
         }
 
+        /* Field of a match binding: resolve against the bound variant of its union, not by
+         * searching every struct for a field of that name */
+        if (obj->type == AST_IDENTIFIER) {
+            int resolved = -1;
+            for (int li = cg->local_count - 1; li >= 0; li--) {
+                if (strcmp(cg->locals[li].name, obj->as.identifier) != 0) continue;
+                if (cg->locals[li].match_union >= 0) {
+                    CgUnionDef *bu = &cg->unions[cg->locals[li].match_union];
+                    int bv = cg->locals[li].match_variant;
+                    for (int fi = 0; fi < bu->variant_field_counts[bv]; fi++) {
+                        if (strcmp(bu->variant_field_names[bv][fi], field) == 0) {
+                            resolved = fi;
+                            break;
+                        }
+                    }
+                }
+                break;      /* innermost local of that name decides */
+            }
+            if (resolved >= 0) {
+                compile_expr(cg, obj);
+                emit_op(cg, OP_UNION_FIELD, resolved);
+                break;
+            }
+        }
+
         /* Regular struct field access */
         compile_expr(cg, obj);
 
@@ -2001,6 +2030,10 @@ static void compile_expr(CG *cg, ASTNode *node) {
             if (binding && binding[0] != '\0') {
                 emit_op(cg, OP_DUP);  /* keep union on stack */
                 uint16_t bslot = local_add(cg, binding, node->line);
+                if (ud && vi >= 0) {
+                    cg->locals[bslot].match_union = (int)(ud - cg->unions);
+                    cg->locals[bslot].match_variant = (int)vi;
+                }
                 emit_op(cg, OP_STORE_LOCAL, (int)bslot);
             }
 
